@@ -237,7 +237,7 @@ Lemma gen_ack_inv : forall j now pn largest rt cap j' f,
       = (R, (g, a, last), cap2, rest') /\
     f = mkack largest (Z.max 0 (now - rt) * 1000) (Z.max (c - 1) 0)
           (if last then
-             if rc_incr (Z.of_nat (length R)) + varint_size (g - 1) + varint_size (a - 1) <? cap2
+             if rc_incr (Z.of_nat (length R)) + varint_size (g - 1) + varint_size (a - 1) <=? cap2
              then R ++ [(g - 1, a - 1)] else R
            else R) /\
     r_off j' = r_off j /\ r_mad j' = r_mad j /\ r_incl j' = set_add pn (r_incl j) /\
@@ -289,8 +289,8 @@ Proof.
   change (varint_size 0) with 1 in Hspent.
   subst f. unfold ack_encoding_size. cbn [a_largest a_delay a_first a_ranges]. split; [|reflexivity].
   destruct last.
-  - destruct (rc_incr (Z.of_nat (length R)) + varint_size (g - 1) + varint_size (a - 1) <? cap2) eqn:E.
-    + apply Z.ltb_lt in E. rewrite app_length, ranges_size_app. cbn [length ranges_size].
+  - destruct (rc_incr (Z.of_nat (length R)) + varint_size (g - 1) + varint_size (a - 1) <=? cap2) eqn:E.
+    + apply Z.leb_le in E. rewrite app_length, ranges_size_app. cbn [length ranges_size].
       rewrite Nat2Z.inj_add. change (Z.of_nat 1) with 1. rewrite varint_size_succ. lia.
     + lia.
   - lia.
@@ -359,11 +359,11 @@ Proof.
   intros j now pn largest rt cap j' f Hoff [Hl0 Hpre] H.
   destruct (gen_ack_inv _ _ _ _ _ _ _ _ H) as (c & done1 & rest1 & R & g & a & last & cap2 & rest' & _ & FL & _ & AF & Hf & _).
   destruct (first_loop_spec _ _ _ _ _ FL) as (Hc & Hall & _ & Hend).
-  set (ranges := if last then if rc_incr (Z.of_nat (length R)) + varint_size (g - 1) + varint_size (a - 1) <? cap2
+  set (ranges := if last then if rc_incr (Z.of_nat (length R)) + varint_size (g - 1) + varint_size (a - 1) <=? cap2
                               then R ++ [(g - 1, a - 1)] else R else R) in *.
   assert (Hsub : exists r, final_ranges R (g, a, last) = ranges ++ r).
   { unfold final_ranges, ranges. destruct last; [|exists []; symmetry; apply app_nil_r].
-    destruct (_ <? cap2); [exists []; symmetry; apply app_nil_r | exists [(g - 1, a - 1)]; reflexivity]. }
+    destruct (_ <=? cap2); [exists []; symmetry; apply app_nil_r | exists [(g - 1, a - 1)]; reflexivity]. }
   destruct Hsub as [rx Hsub].
   destruct Hpre as [Hrot | (s & Hs & Hts)].
   - (* rotated out: the iterator is empty *)
@@ -770,14 +770,14 @@ Proof.
   end; lia.
 Qed.
 
-(* with more capacity than the full list needs, the fold pushes every range and the pending one *)
+(* with at least the capacity the full list needs, the fold pushes every range and the pending one *)
 Lemma ack_fold_full : forall pn l gap ack last cap nr,
   ranges_size (runs_full (map tracked l) gap ack last)
-    + varint_size (nr + Z.of_nat (length (runs_full (map tracked l) gap ack last))) - varint_size nr < cap ->
+    + varint_size (nr + Z.of_nat (length (runs_full (map tracked l) gap ack last))) - varint_size nr <= cap ->
   exists R g a lst cap' l',
     ack_fold pn l gap ack last cap nr = (R, (g, a, lst), cap', l') /\
     (if lst then R ++ [(g - 1, a - 1)] else R) = runs_full (map tracked l) gap ack last /\
-    (lst = true -> rc_incr (nr + Z.of_nat (length R)) + varint_size (g - 1) + varint_size (a - 1) < cap').
+    (lst = true -> rc_incr (nr + Z.of_nat (length R)) + varint_size (g - 1) + varint_size (a - 1) <= cap').
 Proof.
   induction l as [|s rest IH]; cbn [ack_fold map runs_full]; intros gap ack last cap nr Hcap.
   - exists [], gap, ack, last, cap, []. split; [reflexivity|]. split; [destruct last; reflexivity|].
@@ -853,7 +853,7 @@ Definition full_frame (j : rjournal) (now largest rt : Z) : ackframe :=
 Definition full_size (j : rjournal) (now largest rt : Z) : Z := ack_encoding_size (full_frame j now largest rt).
 
 Lemma gen_ack_full : forall j now pn largest rt cap j' f,
-  gen_ack j now pn largest rt cap = GaOk j' f -> full_size j now largest rt < cap -> f = full_frame j now largest rt.
+  gen_ack j now pn largest rt cap = GaOk j' f -> full_size j now largest rt <= cap -> f = full_frame j now largest rt.
 Proof.
   intros j now pn largest rt cap j' f H Hcap.
   destruct (gen_ack_inv _ _ _ _ _ _ _ _ H) as (c & done1 & rest1 & R & g & a & last & cap2 & rest' & _ & FL & Hmin & AF & Hf & _).
@@ -868,8 +868,8 @@ Proof.
   rewrite AF in E. inversion E; subst R' g' a' lst' c' l'.
   subst f. f_equal. rewrite <- HF. destruct last; [|reflexivity].
   specialize (HC eq_refl). rewrite Z.add_0_l in HC.
-  replace (rc_incr (Z.of_nat (length R)) + varint_size (g - 1) + varint_size (a - 1) <? cap2) with true
-    by (symmetry; apply Z.ltb_lt; lia).
+  replace (rc_incr (Z.of_nat (length R)) + varint_size (g - 1) + varint_size (a - 1) <=? cap2) with true
+    by (symmetry; apply Z.leb_le; lia).
   reflexivity.
 Qed.
 
@@ -958,10 +958,10 @@ Proof.
     + left. unfold in_range. cbn [fst snd]. apply andb_true_iff. split; apply Z.leb_le; lia.
 Qed.
 
-(* c10_ack_complete, conditional form: capacity strictly above the full size *)
+(* c10_ack_complete: capacity at least the size of the frame that lists everything *)
 Lemma p_c10_ack_complete : forall h j reg now pn largest rt cap j' f,
   rreach h j reg -> In largest reg ->
-  gen_ack j now pn largest rt cap = GaOk j' f -> full_size j now largest rt < cap ->
+  gen_ack j now pn largest rt cap = GaOk j' f -> full_size j now largest rt <= cap ->
   exists rs, ack_iter f = Some rs /\
     forall x, x <= largest -> has j x = true -> in_ranges x rs = true.
 Proof.
@@ -973,16 +973,32 @@ Proof.
   apply full_frame_complete; [apply I | exact Hpre].
 Qed.
 
-(* finding F30: with capacity == full size the last range is left out (`capacity > size`) *)
-Lemma p_c10_ack_complete_refuted :
+(* regression witness of the repaired finding F30 (`capacity > size`): with capacity == full size
+   (7 bytes) the complete frame is returned; one byte less and the last range is (rightly) cut *)
+Lemma p_c10_ack_exact_fit :
   let h := [RvRcvd 0 0 true 10; RvRcvd 0 2 true 10] in
   match rv_run (rj_new None) [] h with
   | Some (j, reg) =>
       full_size j 0 2 0 = 7 /\
-      match gen_ack j 0 1 2 0 7 with
-      | GaOk _ f => ack_iter f = Some [(2, 2)] /\ has j 0 = true /\ In 0 reg /\ ack_encoding_size f = 5
-      | _ => False
+      match gen_ack j 0 1 2 0 7, gen_ack j 0 1 2 0 6 with
+      | GaOk _ f, GaOk _ f6 =>
+          ack_iter f = Some [(2, 2); (0, 0)] /\ ack_encoding_size f = 7 /\
+          ack_iter f6 = Some [(2, 2)] /\ ack_encoding_size f6 = 5
+      | _, _ => False
       end
   | None => False
   end.
 Proof. vm_compute. repeat split; auto. Qed.
+
+(* generating a frame (whatever the capacity, also when it is refused) never removes a number
+   from the tracked set: numbers left out for capacity are listed by the next frame that has room *)
+Lemma p_c10_genack_keeps_tracked : forall j now pn largest rt cap,
+  match gen_ack j now pn largest rt cap with
+  | GaOk j' _ | GaErr j' => r_off j' = r_off j /\ forall q, has j' q = has j q
+  | GaPanic => True
+  end.
+Proof.
+  intros j now pn largest rt cap. pose proof (gen_ack_flags j now pn largest rt cap) as F.
+  destruct (gen_ack j now pn largest rt cap) as [j' f|j'|]; try exact I;
+    destruct F as [Ho Hm]; (split; [exact Ho | apply has_ext; assumption]).
+Qed.
